@@ -17,3 +17,6 @@ for c in "$@"; do
   echo "--- $c"; (cd /verif && timeout 900 python3 check.py $c --tier ${TIER:-quick} > /tmp/mut.out 2>&1; echo "rc=$?"; grep -E "VIOLATION|KNOWN|class=|ERROR|error" /tmp/mut.out | head -${LINES_MAX:-6})
 done
 git -C /repo checkout -- .
+# evidence and replay files written against the mutated tree are not evidence: restore them
+git -C /verif checkout -- evidence 2>/dev/null
+git -C /verif clean -fdq replays 2>/dev/null
